@@ -63,6 +63,8 @@ class UnitResult:
         self.item_text = {}        # `kw Name` -> hash of the type definitions the unit extracts
         self.strlit_patterns = {}  # fn -> number of string-literal patterns in its text
         self.bare_loops = {}       # fn -> number of loops without a template invariant
+        self.lost_required = {}    # fn -> required anchors that found no statement
+        self.lost_optional = {}    # fn -> optional anchors that found no statement
         self.bare_closures = {}    # fn -> closures without a contract (non-trivial bodies) in the extracted text
         self.unconfirmed = []      # failures of the full run that vanish when the function is verified alone (solver instability, not violations)
 
@@ -187,7 +189,7 @@ def _classify(unit, name, diags, vr, have_times):
             key = L.norm(clause_txt) or site_txt[:100]
         oid = "%s:%s:%s:%s" % (name, fname, kind, key)
         lost = sorted(g for g in unit.lost_ghost.get(fname, ()) if re.search(r"\b%s\b" % re.escape(g), clause_txt + " " + (site_txt if kind != "post" else "")))
-        failures.append(dict(id=oid, fn=fname, kind=kind, clause=clause_txt, site=site_txt, lost_ghost=lost, lost_closures=list(unit.lost_closures.get(fname, [])), bare_closures=list(unit.bare_closures.get(fname, [])),
+        failures.append(dict(id=oid, fn=fname, kind=kind, clause=clause_txt, site=site_txt, lost_ghost=lost, lost_closures=list(unit.lost_closures.get(fname, [])), lost_anchors=list(unit.lost_required.get(fname, [])) + list(unit.lost_optional.get(fname, [])), bare_closures=list(unit.bare_closures.get(fname, [])),
                                  site_origin=list(site_origin), clause_origin=list(clause_origin) if clause_origin else None,
                                  message=msg, rendered=d.get("rendered", ""), props=(fn["props"] if fn else [])))
     return failures, front_end, rlimit
@@ -271,6 +273,8 @@ def check_unit(tpl_path, vacuity=True, keep=True):
     res.item_text = {k: sha(v) for k, v in unit.item_text.items()}
     res.strlit_patterns = dict(unit.strlit_patterns)
     res.bare_loops = dict(unit.bare_loops)
+    res.lost_required = dict(unit.lost_required)
+    res.lost_optional = dict(unit.lost_optional)
     cmd, js, diags, wall, raw = run_verus(path)
     res.cmd = " ".join(cmd)
     if js is None:
